@@ -62,4 +62,58 @@ theorem ofU32_lt (n : Nat) (h : n < 4294967296) : ofU32 n < 18446744073709551616
   · obtain ⟨k, M, hk, h1, h2, _, hb⟩ := ofU32_fields n hn h
     rw [hb]; omega
 
+/-! ### `f32 as f64` then `as f32` -/
+
+theorem rne_exact (x s : Nat) : rne (x * 2 ^ s) s = x := by
+  unfold rne
+  by_cases hs : s = 0
+  · subst hs; simp
+  · have hpos : 0 < 2 ^ s := Nat.pow_pos (by decide)
+    have hq : x * 2 ^ s / 2 ^ s = x := Nat.mul_div_cancel _ hpos
+    have hr : x * 2 ^ s % 2 ^ s = 0 := Nat.mul_mod_left _ _
+    have hhalf : 0 < 2 ^ s / 2 := by
+      obtain ⟨k, rfl⟩ : ∃ k, s = k + 1 := ⟨s - 1, by omega⟩
+      rw [Nat.pow_succ, Nat.mul_div_cancel _ (by decide : 0 < 2)]
+      exact Nat.pow_pos (by decide)
+    simp only [hs, if_false, hq, hr]
+    rw [if_neg (by omega), if_pos hhalf]
+
+/-- `toF32` as a function of the three fields -/
+def toF32' (sg e mt : Nat) : Nat :=
+  let s := sg * 2147483648
+  if e = 2047 then
+    if mt = 0 then s + 2139095040
+    else s + 2139095040 + 4194304 + (mt / 536870912) % 4194304
+  else if e = 0 then s
+  else
+    let m := 4503599627370496 + mt
+    let ei : Int := (e : Int) - 1023
+    if ei ≥ -126 then
+      let q := rne m 29
+      let (q, ei) := if q = 16777216 then (8388608, ei + 1) else (q, ei)
+      if ei > 127 then s + 2139095040
+      else s + (Int.toNat (ei + 127)) * 8388608 + (q - 8388608)
+    else
+      let shift := Int.toNat (-126 - ei) + 29
+      if shift > 60 then s
+      else s + rne m shift
+
+theorem toF32_eq (b : Nat) : toF32 b = toF32' (sign b) (expo b) (mant b) := rfl
+
+/-- the fields of a bit pattern assembled from in-range fields -/
+theorem fields_of (sg e mt : Nat) (hs : sg < 2) (he : e < 2048) (hm : mt < 4503599627370496) :
+    sign (sg * 9223372036854775808 + e * 4503599627370496 + mt) = sg ∧
+    expo (sg * 9223372036854775808 + e * 4503599627370496 + mt) = e ∧
+    mant (sg * 9223372036854775808 + e * 4503599627370496 + mt) = mt := by
+  unfold sign expo mant
+  omega
+
+theorem toF32_of_fields (sg e mt : Nat) (hs : sg < 2) (he : e < 2048) (hm : mt < 4503599627370496) :
+    toF32 (sg * 9223372036854775808 + e * 4503599627370496 + mt) = toF32' sg e mt := by
+  obtain ⟨h1, h2, h3⟩ := fields_of sg e mt hs he hm
+  rw [toF32_eq, h1, h2, h3]
+
+/-- not a signalling NaN: exponent field below 255, or infinity, or a NaN with the quiet bit set -/
+def F32Quiet (f : Nat) : Prop := f / 8388608 % 256 ≠ 255 ∨ f % 8388608 = 0 ∨ 4194304 ≤ f % 8388608
+
 end Rml.F64
